@@ -397,3 +397,75 @@ pub fn anomaly_class<E: Field>(circuit: &Circuit<E>, slot: u64) -> String {
     }
     "other".into()
 }
+
+/// The main trace matrices (as canonical u64s) the primitive tables would commit to for `traces`.
+/// Used to recognise "forgeries" that do not change anything the prover commits.
+#[allow(clippy::type_complexity)]
+pub fn main_matrices<SC, E, const D: usize>(
+    circuit: &Circuit<E>,
+    traces: &Traces<E>,
+    packing: &TablePacking,
+) -> Result<Vec<Vec<u64>>, String>
+where
+    SC: StarkGenericConfig + 'static + Send + Sync,
+    E: Field + ExtensionField<Val<SC>> + ExtractBinomialW<Val<SC>>,
+    Val<SC>: StarkField + PrimeField64,
+    SymbolicExpressionExt<Val<SC>, SC::Challenge>: Algebra<SymbolicExpression<Val<SC>>>,
+{
+    let (ad, _prim, _np) =
+        get_airs_and_degrees_with_prep::<SC, E, D>(circuit, packing, &[], &[], ConstraintProfile::Standard)
+            .map_err(|e| format!("{e:?}"))?;
+    let min_h = packing.min_trace_height();
+    let mut out = vec![];
+    let conv = |m: RowMajorMatrix<Val<SC>>| -> Vec<u64> { m.values.iter().map(|v| v.as_canonical_u64()).collect() };
+    for (air, _deg) in &ad {
+        match air {
+            CircuitTableAir::Const(_) => out.push(conv(ConstAir::<Val<SC>, D>::trace_to_matrix(&traces.const_trace, min_h))),
+            CircuitTableAir::Public(x) => {
+                out.push(conv(PublicAir::<Val<SC>, D>::trace_to_matrix(&traces.public_trace, x.lanes, min_h)))
+            }
+            CircuitTableAir::Alu(x) => out.push(conv(x.trace_to_matrix(&traces.alu_trace, min_h))),
+            CircuitTableAir::Dynamic(_) => {}
+        }
+    }
+    Ok(out)
+}
+
+/// Number of relation references to each slot (operand / output positions of ops whose relation
+/// depends on the slot; see `opsem::relation_slots`).
+pub fn relation_ref_counts<E: Field>(circuit: &Circuit<E>) -> Vec<usize> {
+    use p3_circuit::{AluOpKind, Op};
+    let mut r = vec![0usize; circuit.witness_count as usize];
+    let mut mark = |id: &p3_circuit::WitnessId| {
+        if let Some(s) = r.get_mut(id.0 as usize) {
+            *s += 1;
+        }
+    };
+    for op in &circuit.ops {
+        match op {
+            Op::Const { out, .. } | Op::Public { out, .. } => mark(out),
+            Op::Alu { kind, a, b, c, out, intermediate_out } => {
+                mark(a);
+                mark(out);
+                if *kind != AluOpKind::BoolCheck {
+                    mark(b);
+                }
+                if matches!(kind, AluOpKind::MulAdd | AluOpKind::HornerAcc) {
+                    if let Some(c) = c {
+                        mark(c);
+                    }
+                }
+                if *kind == AluOpKind::HornerAcc {
+                    if let Some(acc) = intermediate_out {
+                        mark(acc);
+                    }
+                }
+            }
+            Op::Hint { .. } => {}
+            Op::NonPrimitiveOpWithExecutor { inputs, outputs, .. } => {
+                inputs.iter().chain(outputs.iter()).flatten().for_each(&mut mark);
+            }
+        }
+    }
+    r
+}
